@@ -163,6 +163,47 @@ def gen_sources(rng, n_sources, bsz, max_msgs=12, containers=("plain",), tie_hea
     return sources
 
 
+def inflate_message(rng, src, style=None):
+    """make one message of a text source large: a single line beyond the printers' 2056-byte staging buffer, or many
+    continuation lines adding up to several KiB. The message keeps its instant and its first bytes; plain and stored forms
+    are rebuilt."""
+    if src.kind != "text" or not src.msgs or src.plain is None:
+        return None
+    if len(src.msgs) < 3:
+        return None
+    # not one of the first two messages: a large block zero must hold three lines / two messages, or the whole file is
+    # dropped (known finding F-C02a, not this helper's business)
+    k = rng.randrange(2, len(src.msgs))
+    m = src.msgs[k]
+    style = style or rng.choice(("long_line", "many_lines"))
+    data = m.data
+    nl = b"\n"
+    first_end = data.find(nl)
+    unterminated = first_end < 0
+    if unterminated:
+        first_end = len(data)
+    if style == "long_line":
+        target = rng.choice((2040, 2055, 2056, 2057, 2058, 2100, 5000, 9000))
+        pad = max(0, target - (first_end + 1))
+        new = data[:first_end] + b" " + world._body(rng, pad, 0) + data[first_end:]
+    else:
+        extra = b"".join(b"  at frame " + world._body(rng, rng.randint(20, 200), 0) + nl for _ in range(rng.randint(15, 60)))
+        if unterminated:
+            new = data + nl + extra[:-1]
+        else:
+            new = data[:first_end + 1] + extra + data[first_end + 1:]
+    pre_len = sum(len(x.data) for x in src.msgs[:k])
+    head_len = len(src.plain) - sum(len(x.data) for x in src.msgs)      # preamble before the first message
+    off = head_len + pre_len
+    src.plain = src.plain[:off] + new + src.plain[off + len(data):]
+    m.data = new
+    if src.container == "plain":
+        src.stored = src.plain
+    else:
+        src.stored, src.descr = world.random_container(rng, src.container, src.plain, mtime=0, name=src.path)
+    return style
+
+
 def scenario_for(sources, argv_opts, tz="UTC", order=None):
     files = []
     for s in sources:
